@@ -1,6 +1,6 @@
 (* Engine entry points for the pipeline (C01, C02, C09-C12). *)
 From Pan Require Import Base.Common Base.Sx Model.MetricTable Model.Metrics Model.EdgeCase Model.Result Model.Matcher
-  Model.Relabel Model.Pipeline Run.Codec Run.R14.
+  Model.Relabel Model.Pipeline Model.CCA Model.Semantic Run.Codec Run.R14 Run.R05.
 
 Definition dec_metrics (s : sx) : list metric := map (fun e => metric_of_Z (sZ e)) (sL s).
 (* cfg = (matcher mmetric mthr ems dm dthr handler) *)
@@ -25,5 +25,11 @@ Definition run_pipeline (x : sx) : sx :=
 (* sub 2: (cfg ext arr2) -> relabelled prediction after matching *)
 Definition run_match_phase (x : sx) : sx :=
   ofRes (fun a => SL (map (fun v => SZ (snd v)) a)) (match_phase (dec_ext (sNth 1 x)) (dec_cfg (sNth 0 x)) (dec_arr (sNth 2 x))).
+(* sub 3: (cfg ext bk ndim pred ref) -> result of the whole semantic path (CCA inside the model); bk = () | (b);
+   pred / ref are sparse maps ((coords label) ...) *)
+Definition run_semantic (x : sx) : sx :=
+  let bk := match sNth 2 x with SL [b] => Some (dec_backend b) | _ => None end in
+  ofRes enc_result (semantic_pipeline bk (sZ (sNth 3 x)) (dec_ext (sNth 1 x)) (dec_cfg (sNth 0 x))
+                      (dec_smap (sNth 4 x)) (dec_smap (sNth 5 x))).
 Definition run_c01 (sub : Z) (x : sx) : sx :=
-  if sub =? 1 then run_pipeline x else if sub =? 2 then run_match_phase x else SL [SZ (-1)].
+  if sub =? 1 then run_pipeline x else if sub =? 2 then run_match_phase x else if sub =? 3 then run_semantic x else SL [SZ (-1)].
